@@ -27,8 +27,11 @@ import (
 // Ctors are the two constructors of one emitted scope: publisher, subscriber.
 type Ctors = [2]func(*frugal.FScopeProvider) interface{}
 
-// packages is filled by the generated zz_packages.go.
+// packages and paramNames are filled by the generated zz_packages.go.
 var packages = map[string]map[string]Ctors{}
+
+// paramNames: package key -> emitted method name -> parameter names (go/ast).
+var paramNames = map[string]map[string][]string{}
 
 type scopeSpec struct {
 	Name  string     `json:"name"`
@@ -120,8 +123,11 @@ func zeroArg(t reflect.Type) reflect.Value {
 
 var fctxType = reflect.TypeOf((*frugal.FContext)(nil)).Elem()
 
-// call invokes method m with (fctx?) + values + zero payload/handler.
-func call(m reflect.Value, values []string) (err string) {
+// call invokes method m with (fctx?) + the variable values + zero
+// payload/handler.  The values are bound BY NAME, as a caller does who reads
+// the emitted signature: names are the parameter names of the emitted method
+// (from its go/ast), vars/values the scope's variables and their values.
+func call(m reflect.Value, names, vars, values []string) (err string) {
 	defer func() {
 		if p := recover(); p != nil {
 			err = fmt.Sprintf("panic: %v", p)
@@ -137,12 +143,22 @@ func call(m reflect.Value, values []string) (err string) {
 	if t.NumIn() != i+len(values)+1 {
 		return fmt.Sprintf("emitted method takes %d parameters, the scope declares %d prefix variables", t.NumIn(), len(values))
 	}
-	for _, v := range values {
+	if len(names) != t.NumIn() {
+		return fmt.Sprintf("parameter names of the emitted method not found in its source (%d names, %d parameters)", len(names), t.NumIn())
+	}
+	byName := map[string]string{}
+	for k, v := range vars {
+		byName[v] = values[k]
+	}
+	for ; i < t.NumIn()-1; i++ {
 		if t.In(i).Kind() != reflect.String {
 			return fmt.Sprintf("parameter %d is %s, not string", i, t.In(i))
 		}
+		v, ok := byName[names[i]]
+		if !ok {
+			return fmt.Sprintf("parameter %q of the emitted method is not a prefix variable of the scope %v", names[i], vars)
+		}
 		args = append(args, reflect.ValueOf(v).Convert(t.In(i)))
-		i++
 	}
 	args = append(args, zeroArg(t.In(i)))
 	out := m.Call(args)
@@ -240,7 +256,7 @@ func main() {
 						obj := ctor(provider(rec))
 						m := reflect.ValueOf(obj).MethodByName(prefix + op)
 						r := result{Key: jb.Key, Scope: sc.Name, Op: opName, Case: ci, Side: sname, Ctor: ctorName}
-						r.Err = call(m, values)
+						r.Err = call(m, paramNames[jb.Key][prefix+op], sc.Vars, values)
 						got := rec.published
 						if side == 1 {
 							got = rec.subscribed
